@@ -21,7 +21,18 @@ def opKind : BinOp → TK
 theorem binOpOf_opKind (op : BinOp) : binOpOf (opKind op) = some op := by cases op <;> rfl
 
 def opTok (op : BinOp) (txt : List Char) : Token := ⟨opKind op, txt⟩
-def tk (k : TK) : Token := ⟨k, []⟩
+/-- the text of the rules with a fixed text (keywords in lower case) -/
+def fixedText : TK → List Char
+  | .comma => [','] | .plus => ['+'] | .minus => ['-'] | .div => ['/'] | .mul => ['*'] | .mod => ['%'] | .dot => ['.']
+  | .semi => [';'] | .lbrace => ['{'] | .rbrace => ['}'] | .lparen => ['('] | .rparen => [')'] | .lsq => ['['] | .rsq => [']']
+  | .kRule => ['r','u','l','e'] | .kWhen => ['w','h','e','n'] | .kThen => ['t','h','e','n'] | .and => ['&','&'] | .or => ['|','|']
+  | .kTrue => ['t','r','u','e'] | .kFalse => ['f','a','l','s','e'] | .kNil => ['n','i','l'] | .bang => ['!']
+  | .kSalience => ['s','a','l','i','e','n','c','e'] | .eqeq => ['=','='] | .assign => ['='] | .plusAs => ['+','=']
+  | .minusAs => ['-','='] | .divAs => ['/','='] | .mulAs => ['*','='] | .gt => ['>'] | .lt => ['<'] | .gte => ['>','=']
+  | .lte => ['<','='] | .neq => ['!','='] | .bitand => ['&'] | .bitor => ['|']
+  | _ => []
+
+def tk (k : TK) : Token := ⟨k, fixedText k⟩
 
 /-- binding strength of a tree's top node: atoms and parenthesised expressions bind tightest -/
 def level : Expr → Nat
